@@ -296,4 +296,29 @@ def gen_consts():
     return text, {"aad": captured["aad"].hex()}
 
 
-ALL = [("Schema", gen_schema), ("Guards", gen_guards), ("Consts", gen_consts)]
+def gen_layout():
+    """slot layouts, default class/role assignments, role and domain enumerations of cmd_image.py"""
+    from suit_generator import cmd_image as ci
+
+    def layout(cls):
+        return "[" + ", ".join(f"⟨{lean_str(e['role'].name)}, {e['offset']}, {e['size']}, {lean_str(e['domain'].name)}⟩" for e in cls._LAYOUT) + "]"
+
+    def assigns(cls):
+        return "[" + ", ".join(f"({lean_str(e['vendor_name'])}, {lean_str(e['class_name'])}, {lean_str(e['role'].name)})" for e in cls._CLASS_ROLE_ASSIGNMENTS) + "]"
+
+    socs = [("nrf54h20", ci.EnvelopeStorageNrf54h20), ("nrf9280", ci.EnvelopeStorageNrf9280)]
+    text = ("import SuitVerif.Storage\n/-! GENERATED by harness/extract.py from suit_generator/cmd_image.py (class attributes read at run time). -/\n"
+            "namespace SuitVerif.Generated\nopen SuitVerif.Storage\n\n")
+    for name, cls in socs:
+        text += f"def layout_{name} : List Slot := {layout(cls)}\n\n"
+        text += f"def assignments_{name} : List (String × String × String) := {assigns(cls)}\n\n"
+    text += "def roles : List (String × Nat) := [" + ", ".join(f"({lean_str(r.name)}, {r.value})" for r in ci.ManifestRole) + "]\n\n"
+    text += "def domains : List String := [" + ", ".join(lean_str(d.name) for d in ci.ManifestDomain) + "]\n\n"
+    text += (f"def defaultStorageAddress : Nat := {ci.ImageCreator.default_storage_address}\n"
+             f"def slotKeys : Nat × Nat × Nat × Nat := ({ci.EnvelopeStorage.ENVELOPE_SLOT_VERSION_KEY}, {ci.EnvelopeStorage.ENVELOPE_SLOT_VERSION}, "
+             f"{ci.EnvelopeStorage.ENVELOPE_SLOT_CLASS_ID_OFFSET_KEY}, {ci.EnvelopeStorage.ENVELOPE_SLOT_ENVELOPE_BSTR_KEY})\n\n")
+    text += "end SuitVerif.Generated\n"
+    return text, {"layout_slots": {n: len(c._LAYOUT) for n, c in socs}}
+
+
+ALL = [("Schema", gen_schema), ("Guards", gen_guards), ("Consts", gen_consts), ("Layout", gen_layout)]
